@@ -248,6 +248,21 @@ func (vc *VC) prelude() string {
 			}
 			b.WriteString("))\n")
 		}
+		// operands within the int16 range: exact via 16 bit two's complement;
+		// anything else stays uninterpreted (sound over-approximation)
+		for _, op := range []struct{ name, un, f string }{
+			{"bxorS", "bxor", "(ite (= (bitk x %d) (bitk y %d)) 0 %d)"},
+			{"bandS", "band", "(ite (and (= (bitk x %d) 1) (= (bitk y %d) 1)) %d 0)"},
+			{"borS", "bor", "(ite (or (= (bitk x %d) 1) (= (bitk y %d) 1)) %d 0)"}} {
+			b.WriteString("(define-fun " + op.name + "16 ((x Int) (y Int)) Int (+")
+			for k := 0; k < 16; k++ {
+				p := 1 << k
+				b.WriteString(" " + fmt.Sprintf(op.f, p, p, p))
+			}
+			b.WriteString("))\n")
+			b.WriteString("(define-fun " + op.name + " ((x Int) (y Int)) Int (ite (and (<= (- 32768) x) (<= x 32767) (<= (- 32768) y) (<= y 32767)) " +
+				"(let ((u (" + op.name + "16 (ite (< x 0) (+ x 65536) x) (ite (< y 0) (+ y 65536) y)))) (ite (>= u 32768) (- u 65536) u)) (" + op.un + " x y)))\n")
+		}
 	}
 	return b.String()
 }
